@@ -8,3 +8,4 @@ import FpVerif.Properties.C15
 import FpVerif.Properties.C02
 import FpVerif.Properties.C16
 import FpVerif.Properties.C10
+import FpVerif.Properties.C11
